@@ -1484,6 +1484,9 @@ Proof.
   apply IH. now apply step_action_good.
 Qed.
 
+Theorem reachable_WInv : forall c, WInv (w_sess (run_case c)).
+Proof. intros c. exact (proj1 (run_case_good c)). Qed.
+
 (* ---------------------------------------------------------------- the theorem *)
 (* For every program, every script (partial writes down to one byte, a fault or a dropped future at any I/O call),
    every broker behaviour and every number of reconnects: unless one of the three recorded things happened on the
